@@ -30,8 +30,8 @@ func (o Opt[T]) MarshalJSON() ([]byte, error) {
 	return json.Marshal([]T(o[:1]))
 }
 
-func None[T any]() Opt[T]    { return Opt[T]{} }
-func Some[T any](v T) Opt[T] { return Opt[T]{v} }
+func None[T any]() Opt[T]     { return Opt[T]{} }
+func Some[T any](v T) Opt[T]  { return Opt[T]{v} }
 func (o Opt[T]) IsSome() bool { return len(o) > 0 }
 func (o Opt[T]) Val() T       { return o[0] }
 
